@@ -1,0 +1,95 @@
+//go:build verif
+
+package base32
+
+// Machine-checked contracts for this package (read by /verif/govc; comment-only, compiled only
+// with -tags verif). See /verif/DESIGN.md.
+//
+// Bytes are bit vectors here. symq(m, a..e) is the m-th 5-bit symbol of the 40-bit big-endian
+// string a||b||c||d||e; unsymq(m, s0..s7) is the m-th byte of the 40-bit string made of eight
+// 5-bit symbols. Lemma symq_is_bit_regrouping ties both to the bit-level definition of BIP-173's
+// regrouping (symbol bit t of group m is bit 5m+t of the string).
+
+//@ props C04 C05
+
+//@ spec rd(s []byte, k int) byte = ite(k < len(s), s[k], 0)
+//@ spec symq(m int, a byte, b byte, c byte, d byte, e byte) byte = ite(m == 0, a>>3, ite(m == 1, (a&7)<<2 | b>>6, ite(m == 2, (b>>1)&31, ite(m == 3, (b&1)<<4 | c>>4, ite(m == 4, (c&15)<<1 | d>>7, ite(m == 5, (d>>2)&31, ite(m == 6, (d&3)<<3 | e>>5, e&31)))))))
+//@ spec symat(s []byte, g int, m int) byte = symq(m, rd(s, 5*g), rd(s, 5*g+1), rd(s, 5*g+2), rd(s, 5*g+3), rd(s, 5*g+4))
+//@ spec rd5(s []uint8, k int) uint8 = ite(k < len(s), s[k], 0)
+//@ spec unsymq(m int, s0 uint8, s1 uint8, s2 uint8, s3 uint8, s4 uint8, s5 uint8, s6 uint8, s7 uint8) byte = ite(m == 0, s0<<3 | s1>>2, ite(m == 1, s1<<6 | s2<<1 | s3>>4, ite(m == 2, s3<<4 | s4>>1, ite(m == 3, s4<<7 | s5<<2 | s6>>3, s6<<5 | s7))))
+//@ spec unsymat(s []uint8, g int, m int) byte = unsymq(m, rd5(s, 8*g), rd5(s, 8*g+1), rd5(s, 8*g+2), rd5(s, 8*g+3), rd5(s, 8*g+4), rd5(s, 8*g+5), rd5(s, 8*g+6), rd5(s, 8*g+7))
+//@ spec pick5(j int, a byte, b byte, c byte, d byte, e byte) byte = ite(j == 0, a, ite(j == 1, b, ite(j == 2, c, ite(j == 3, d, e))))
+//@ spec bitq(i int, a byte, b byte, c byte, d byte, e byte) byte = (pick5(i/8, a, b, c, d, e) >> (7 - i%8)) & 1
+//@ spec badlen(n int) bool = n%8 == 1 || n%8 == 3 || n%8 == 6
+//@ spec padzero(s []uint8) bool = ite(len(s)%8 == 2, s[len(s)-1]&3 == 0, ite(len(s)%8 == 4, s[len(s)-1]&15 == 0, ite(len(s)%8 == 5, s[len(s)-1]&1 == 0, ite(len(s)%8 == 7, s[len(s)-1]&7 == 0, true))))
+
+//@ lemma symq_is_bit_regrouping(a byte, b byte, c byte, d byte, e byte)
+//@   repr byte
+//@   ensures forall(m, 0, 8, symq(m, a, b, c, d, e) < 32)
+//@   ensures forall(m, 0, 8, forall(t, 0, 5, (symq(m, a, b, c, d, e) >> (4-t)) & 1 == bitq(5*m+t, a, b, c, d, e)))
+
+//@ lemma unsymq_inverts_symq(a byte, b byte, c byte, d byte, e byte)
+//@   repr byte
+//@   ensures unsymq(0, symq(0,a,b,c,d,e), symq(1,a,b,c,d,e), symq(2,a,b,c,d,e), symq(3,a,b,c,d,e), symq(4,a,b,c,d,e), symq(5,a,b,c,d,e), symq(6,a,b,c,d,e), symq(7,a,b,c,d,e)) == a
+//@   ensures unsymq(1, symq(0,a,b,c,d,e), symq(1,a,b,c,d,e), symq(2,a,b,c,d,e), symq(3,a,b,c,d,e), symq(4,a,b,c,d,e), symq(5,a,b,c,d,e), symq(6,a,b,c,d,e), symq(7,a,b,c,d,e)) == b
+//@   ensures unsymq(2, symq(0,a,b,c,d,e), symq(1,a,b,c,d,e), symq(2,a,b,c,d,e), symq(3,a,b,c,d,e), symq(4,a,b,c,d,e), symq(5,a,b,c,d,e), symq(6,a,b,c,d,e), symq(7,a,b,c,d,e)) == c
+//@   ensures unsymq(3, symq(0,a,b,c,d,e), symq(1,a,b,c,d,e), symq(2,a,b,c,d,e), symq(3,a,b,c,d,e), symq(4,a,b,c,d,e), symq(5,a,b,c,d,e), symq(6,a,b,c,d,e), symq(7,a,b,c,d,e)) == d
+//@   ensures unsymq(4, symq(0,a,b,c,d,e), symq(1,a,b,c,d,e), symq(2,a,b,c,d,e), symq(3,a,b,c,d,e), symq(4,a,b,c,d,e), symq(5,a,b,c,d,e), symq(6,a,b,c,d,e), symq(7,a,b,c,d,e)) == e
+
+//@ lemma symq_inverts_unsymq(s0 uint8, s1 uint8, s2 uint8, s3 uint8, s4 uint8, s5 uint8, s6 uint8, s7 uint8)
+//@   repr byte
+//@   requires s0 < 32 && s1 < 32 && s2 < 32 && s3 < 32 && s4 < 32 && s5 < 32 && s6 < 32 && s7 < 32
+//@   ensures symq(0, unsymq(0,s0,s1,s2,s3,s4,s5,s6,s7), unsymq(1,s0,s1,s2,s3,s4,s5,s6,s7), unsymq(2,s0,s1,s2,s3,s4,s5,s6,s7), unsymq(3,s0,s1,s2,s3,s4,s5,s6,s7), unsymq(4,s0,s1,s2,s3,s4,s5,s6,s7)) == s0
+//@   ensures symq(1, unsymq(0,s0,s1,s2,s3,s4,s5,s6,s7), unsymq(1,s0,s1,s2,s3,s4,s5,s6,s7), unsymq(2,s0,s1,s2,s3,s4,s5,s6,s7), unsymq(3,s0,s1,s2,s3,s4,s5,s6,s7), unsymq(4,s0,s1,s2,s3,s4,s5,s6,s7)) == s1
+//@   ensures symq(2, unsymq(0,s0,s1,s2,s3,s4,s5,s6,s7), unsymq(1,s0,s1,s2,s3,s4,s5,s6,s7), unsymq(2,s0,s1,s2,s3,s4,s5,s6,s7), unsymq(3,s0,s1,s2,s3,s4,s5,s6,s7), unsymq(4,s0,s1,s2,s3,s4,s5,s6,s7)) == s2
+//@   ensures symq(3, unsymq(0,s0,s1,s2,s3,s4,s5,s6,s7), unsymq(1,s0,s1,s2,s3,s4,s5,s6,s7), unsymq(2,s0,s1,s2,s3,s4,s5,s6,s7), unsymq(3,s0,s1,s2,s3,s4,s5,s6,s7), unsymq(4,s0,s1,s2,s3,s4,s5,s6,s7)) == s3
+//@   ensures symq(4, unsymq(0,s0,s1,s2,s3,s4,s5,s6,s7), unsymq(1,s0,s1,s2,s3,s4,s5,s6,s7), unsymq(2,s0,s1,s2,s3,s4,s5,s6,s7), unsymq(3,s0,s1,s2,s3,s4,s5,s6,s7), unsymq(4,s0,s1,s2,s3,s4,s5,s6,s7)) == s4
+//@   ensures symq(5, unsymq(0,s0,s1,s2,s3,s4,s5,s6,s7), unsymq(1,s0,s1,s2,s3,s4,s5,s6,s7), unsymq(2,s0,s1,s2,s3,s4,s5,s6,s7), unsymq(3,s0,s1,s2,s3,s4,s5,s6,s7), unsymq(4,s0,s1,s2,s3,s4,s5,s6,s7)) == s5
+//@   ensures symq(6, unsymq(0,s0,s1,s2,s3,s4,s5,s6,s7), unsymq(1,s0,s1,s2,s3,s4,s5,s6,s7), unsymq(2,s0,s1,s2,s3,s4,s5,s6,s7), unsymq(3,s0,s1,s2,s3,s4,s5,s6,s7), unsymq(4,s0,s1,s2,s3,s4,s5,s6,s7)) == s6
+//@   ensures symq(7, unsymq(0,s0,s1,s2,s3,s4,s5,s6,s7), unsymq(1,s0,s1,s2,s3,s4,s5,s6,s7), unsymq(2,s0,s1,s2,s3,s4,s5,s6,s7), unsymq(3,s0,s1,s2,s3,s4,s5,s6,s7), unsymq(4,s0,s1,s2,s3,s4,s5,s6,s7)) == s7
+
+//@ func EncodedLen(n int) (r int)
+//@   requires 0 <= n && n <= (1<<63-5)/8
+//@   ensures  r == (n*8+4)/5
+//@   panics   never
+
+//@ func DecodedLen(n int) (r int)
+//@   requires 0 <= n && n <= (1<<63-1)/5
+//@   ensures  r == n*5/8
+//@   panics   never
+
+//@ func Encode(dst []uint8, src []byte) (n int)
+//@   repr byte
+//@   requires len(src) <= (1<<63-5)/8
+//@   requires len(dst) >= (len(src)*8+4)/5
+//@   ensures  n == (len(src)*8+4)/5
+//@   ensures  forall(g, 0, len(src)/5, forall(m, 0, 8, dst[8*g+m] == symat(src, g, m)))
+//@   ensures  forall(m, 0, 8, implies(8*(len(src)/5)+m < n, dst[8*(len(src)/5)+m] == symat(src, len(src)/5, m)))
+//@   modifies dst[0:(len(src)*8+4)/5]
+//@   panics   never
+//@   loop 1 invariant off(src)%5 == 0 && 0 <= off(src) && off(dst) == 8*(off(src)/5)
+//@   loop 1 invariant len(src) == len(old(src)) - off(src) && len(dst) == len(old(dst)) - off(dst) && cap(dst) == cap(old(dst)) - off(dst)
+//@   loop 1 invariant n == (len(old(src))*8+4)/5
+//@   loop 1 invariant forall(g, 0, off(src)/5, forall(m, 0, 8, old(dst)[8*g+m] == symat(old(src), g, m)))
+//@   loop 1 invariant forall(k, off(dst), cap(old(dst)), old(dst)[k] == old(dst[k]))
+
+//@ func Decode(dst []byte, src []uint8) (n int, err error)
+//@   repr byte
+//@   requires forall(k, 0, len(src), src[k] < 32)
+//@   requires len(src) <= (1<<63-1)/5
+//@   requires len(dst) >= len(src)*5/8
+//@   ensures  isnil(err) == (!badlen(len(src)) && padzero(src))
+//@   ensures  implies(isnil(err), n == len(src)*5/8)
+//@   ensures  implies(isnil(err), forall(g, 0, len(src)/8, forall(m, 0, 5, dst[5*g+m] == unsymat(src, g, m))))
+//@   ensures  implies(isnil(err), forall(m, 0, 5, implies(5*(len(src)/8)+m < n, dst[5*(len(src)/8)+m] == unsymat(src, len(src)/8, m))))
+//@   ensures  implies(!isnil(err), errtype(err, CorruptInputError) && 0 <= err.Offset && err.Offset < len(src))
+//@   ensures  implies(!isnil(err), is(err, ErrInvalidLength) == badlen(len(src)))
+//@   ensures  implies(!isnil(err) && !badlen(len(src)), is(err, ErrNonZeroPadding) && err.Offset == len(src)-1)
+//@   ensures  implies(badlen(len(src)), err.Offset == 8*(len(src)/8))
+//@   ensures  0 <= n && n <= len(src)*5/8
+//@   modifies dst[0:len(src)*5/8]
+//@   panics   never
+//@   loop 1 invariant read == off(src) && read%8 == 0 && 0 <= read && written == 5*(read/8) && off(dst) == written
+//@   loop 1 invariant len(src) == len(old(src)) - off(src) && len(dst) == len(old(dst)) - off(dst) && cap(dst) == cap(old(dst)) - off(dst)
+//@   loop 1 invariant forall(g, 0, read/8, forall(m, 0, 5, old(dst)[5*g+m] == unsymat(old(src), g, m)))
+//@   loop 1 invariant forall(k, off(dst), cap(old(dst)), old(dst)[k] == old(dst[k]))
